@@ -185,6 +185,30 @@ def _isometry(what, lon, lat, olon, olat, tol, sep_out=None):
 # --------------------------------------------------------------------------------------------
 # euler family
 # --------------------------------------------------------------------------------------------
+def _integer_inputs_agree(what, fn, lon, lat, ctx):
+    """Whole-degree positions handed over as integer arrays, lists of ints and Python ints give what the same
+    positions give as floats (an integer dtype is a legitimate way to hold such coordinates)."""
+    ilon = np.round(lon[:8]).astype("i8") % 360
+    ilat = np.clip(np.round(lat[:8]), -90, 90).astype("i8")
+    ref = fn(ilon.astype("f8"), ilat.astype("f8"))
+    rlon, rlat = np.atleast_1d(ref[0]), np.atleast_1d(ref[1])
+    for kind in ("i8", "i4", "list", "scalar"):
+        if kind == "list":
+            got = fn(ilon.tolist(), ilat.tolist())
+        elif kind == "scalar":
+            got = fn(int(ilon[0]), int(ilat[0]))
+        else:
+            got = fn(ilon.astype(kind), ilat.astype(kind))
+        glon, glat = np.atleast_1d(np.asarray(got[0], dtype="f8")), np.atleast_1d(np.asarray(got[1], dtype="f8"))
+        m = glon.size
+        require(m == (1 if kind == "scalar" else ilon.size), "%s with %s positions returned %d values", what, kind, m)
+        d = np.asarray(sphere.sep(glon, glat, rlon[:m], rlat[:m]), dtype="f8")
+        k = int(np.argmax(d))
+        require(d[k] <= TOL_FINE, "%s: integer (%s) position (%d, %d) gives (%.12g, %.12g), the same position as float "
+                "gives (%.12g, %.12g)", what, kind, ilon[k], ilat[k], glon[k], glat[k], rlon[k], rlat[k])
+    ctx.count("integer-typed positions", int(ilon.size))
+
+
 @st.composite
 def euler_cases(draw):
     case = draw(_body())
@@ -220,6 +244,7 @@ def check_euler(case, ctx):
         a, c = _pair_result(name + " (scalar input)", r, 1)
         require(a[0] == olon[i] and c[0] == olat[i], "%s: scalar call gives (%.17g, %.17g), array call (%.17g, %.17g)",
                 name, a[0], c[0], olon[i], olat[i])
+    _integer_inputs_agree(name, lambda a_, b_: must(getattr(co, WRAPPERS[s]), a_, b_, b1950=b), lon, lat, ctx)
     ctx.count("points", n)
 
 
@@ -387,6 +412,19 @@ def check_xyz(case, ctx):
         a, c = _pair_result(iname + " (scalar input)", rb, 1)
         require(a[0] == blon[i] and c[0] == blat[i], "%s: scalar call gives (%.17g, %.17g), array call (%.17g, %.17g)",
                 iname, a[0], c[0], blon[i], blat[i])
+    # the documented dtype option: single-precision vectors and back (held to single precision only)
+    r4 = must(co.eq2xyz, a_in, b_in, dtype="f4", units=units, stomp=stomp)
+    require(len(r4) == 3 and all(isinstance(c, np.ndarray) and c.shape == (n,) for c in r4),
+            "%s with dtype='f4' must return three arrays of %d elements", name, n)
+    b4 = _pair_result(iname + " of single-precision vectors", must(co.xyz2eq, r4[0], r4[1], r4[2], units=units,
+                                                                   stomp=stomp), n)
+    g4lon, g4lat = (sphere.ld(b4[0]) * sphere.R2D, sphere.ld(b4[1]) * sphere.R2D) if units == "rad" else b4
+    require(bool(np.isfinite(np.asarray(g4lon, "f8")).all() and np.isfinite(np.asarray(g4lat, "f8")).all()),
+            "%s of single-precision vectors is not finite", iname)
+    d4 = np.asarray(sphere.sep(g4lon, g4lat, tlon, tlat), dtype="f8")
+    k = int(np.argmax(d4))
+    require(d4[k] <= 1e-4, "%s(eq2xyz(p, dtype='f4')) is %.3g deg from p = (%.9g, %.9g) (single precision allows ~1e-5)",
+            iname, d4[k], lon[k], lat[k])
     ctx.count("points", n)
 
 
@@ -487,6 +525,7 @@ def check_rotate(case, ctx):
     rl = must(co.rotate, phi, theta, psi, lon.tolist(), lat.tolist())
     a, c = _pair_result(name + " (list input)", rl, n)
     require(np.array_equal(a, olon) and np.array_equal(c, olat), "%s: list and array calls differ", name)
+    _integer_inputs_agree(name, lambda a_, b_: must(co.rotate, phi, theta, psi, a_, b_), lon, lat, ctx)
     ctx.count("points", n)
 
 
